@@ -383,20 +383,29 @@ def run(ctx):
             wire.append(("Transfer-Encoding", "chunked"))
         elif c["body"] or c["method"] in ("POST", "PUT"):
             wire.append(("Content-Length", str(len(c["body"]))))
-        exprs.append("c05_case (%d)%%Z %s %s %s %s %s %s %s %s" % (
-            c["is_admin"], cb(now_v), rc.coq_opt(c["key"]["key"] if c["key"] else None),
-            rc.coq_opt(c["key"]["guid"] if c["key"] else None), cb(c["method"]), cb(path), rc.coq_opt(q),
-            rc.coq_wire(wire), cb(c["body"])))
+        if c.get("trailers") is not None:
+            # a request with a trailer section goes through Trailers.forward_wire: the model returns EVERY field the host must see,
+            # head and trailer sections together
+            exprs.append("c05_trailer_case (%d)%%Z %s %s %s %s %s %s %s %s %s" % (
+                c["is_admin"], cb(now_v), rc.coq_opt(c["key"]["key"] if c["key"] else None),
+                rc.coq_opt(c["key"]["guid"] if c["key"] else None), cb(c["method"]), cb(path), rc.coq_opt(q),
+                rc.coq_wire(wire), rc.coq_wire([(k, rc.trim_ows(v)) for k, v in c["trailers"]]), cb(c["body"])))
+        else:
+            exprs.append("c05_case (%d)%%Z %s %s %s %s %s %s %s %s" % (
+                c["is_admin"], cb(now_v), rc.coq_opt(c["key"]["key"] if c["key"] else None),
+                rc.coq_opt(c["key"]["guid"] if c["key"] else None), cb(c["method"]), cb(path), rc.coq_opt(q),
+                rc.coq_wire(wire), cb(c["body"])))
         eval_cases.append((c, replay))
 
     # ---------------- model ----------------
     if broken:
         exprs, eval_cases = [], []          # stale constants: predicate only
-    model = vplib.coq_eval(ctx, "From GPA Require Import Headers.", exprs, shard=60)
+    model = vplib.coq_eval(ctx, "From GPA Require Import Headers Trailers.", exprs, shard=60)
     ctx.log("model: %d requests evaluated" % len(model))
     signed_n = 0
     for (c, replay), mo in zip(eval_cases, model):
-        hs = rc.drop(c["impl_headers"], rc.FRAMING)
+        # for a request with a trailer section the comparison is over everything the host saw, head AND trailer sections
+        hs = rc.drop(c["impl_headers"] + (c.get("impl_trailers") or [] if c.get("trailers") is not None else []), rc.FRAMING)
         if mo is None:
             disagreements.append({"case": replay, "model": "502 (illegal header value)", "impl": hs})
             continue
